@@ -4,8 +4,9 @@
     seek_until(reader, data)            -> Proc           (statements over the reader, a `while` loop)
     KdBufParser.set_thread_map          -> List TmStmt    (clear / for thread in …: self.<d>[thread.<k>] = thread.<v>)
     KdBufParser.parse_v2                -> Stmt           (whole generator body)
-    KdBufParser.parse_v3                -> Stmt           (from the first statement to the end of the first top-level
-                                                           `while` loop; what follows is the hand-modelled tail)
+    KdBufParser.parse_v3                -> Stmt           (whole generator body: header, scans, thread map, chunk loop,
+                                                           `reader.seek(-8, 1)`, the additional-data blocks with their
+                                                           if/elif dispatch on `block.tag`, the log loop)
     KdBufParser.parse + self.versions   -> Dispatch
 
 Normal form (so that harmless rewrites give the same term):
@@ -17,18 +18,34 @@ Normal form (so that harmless rewrites give the same term):
   * module-level constants are referred to by NAME (`BConst` / `IConst`: their values are reflected into Gen/Consts);
     other module-level names bound to a bytes / int literal become literals;
   * `not (a == b)` is `a != b` and vice versa; `while True` / `while 1` is `tt`; `len(x) == 0` stays what it is;
-  * a `reader.read(n)` inside an `if` condition is hoisted into a fresh temporary just before the `if`.
+  * a `reader.read(n)` inside an `if` condition is hoisted into a fresh temporary just before the `if`;
+  * in `a == b` / `a != b` with a constant on exactly one side the constant is written second (`X == block.tag` is
+    `block.tag == X`); an `elif` chain is nested `if … else` (that is what the `ast` gives);
+  * `if self.<attr>: A else: B` is `if not self.<attr>: B else: A`;
+  * a run of consecutive attribute resets (`self.<attr> = '' | {} | {'Binaries': []}`) of pairwise different attributes
+    is written in the order trace_codes, kernel_extensions, dyld_modules, images, processes (they commute);
+  * `v += <list>` on a list local is `v.extend(<list>)`; `self.a = self.a + e` is `self.a += e`; `.decode()`,
+    `.decode('utf-8')`, `.decode('utf8')` are the same call.
+A `for x in v` loop whose body rebinds or extends `v` is outside the subset (the interpreter goes through the list as it
+is at the loop's entry).
 Everything else becomes an explicit `.unsupported "<source text>"` node: never a guess."""
 import ast
 import os
 
 BCONST = {'RAW_VERSION2_BYTES': '.v2', 'RAW_VERSION3_BYTES': '.v3', 'TRACEV3_STACKSHOT_END': '.stackshotEnd',
           'TRACEV3_THREADMAP_TAG': '.threadmapTag', 'TRACEV3_EVENTS_TAG': '.eventsTag',
-          'TRACEV3_MORE_EVENTS': '.moreEvents'}
+          'TRACEV3_MORE_EVENTS': '.moreEvents', 'TRACEV3_DYLD_MODULES': '.dyldModules',
+          'TRACEV3_TRACE_CODES': '.traceCodes', 'TRACEV3_PROCESSES': '.processes',
+          'TRACEV3_KERNEL_EXTENSIONS': '.kernelExtensions', 'TRACEV3_IMAGES': '.images',
+          'TRACEV3_LOG_EVENTS': '.logEvents', 'TRACEV3_LOG_STRINGS': '.logStrings'}
 ICONST = {'KEVENT_SIZE': '.keventSize', 'RAW_VERSION_SIZE': '.rawVersionSize'}
 DICTS = {'threads_pids': '.threadsPids', 'pids_names': '.pidsNames'}
 FIELDS = {'tid': '.tid', 'pid': '.pid', 'process': '.process'}
 METHODS = {'parse_v2': '.parseV2', 'parse_v3': '.parseV3'}
+ATTRS = {'trace_codes': '.traceCodes', 'kernel_extensions': '.kernelExtensions', 'dyld_modules': '.dyldModules',
+         'images': '.images', 'processes': '.processes'}
+ATTR_ORDER = ['.traceCodes', '.kernelExtensions', '.dyldModules', '.images', '.processes']
+LOG_FIELDS = {'thread_identifier': '.tid', 'process_identifier': '.pid', 'process': '.process'}
 
 
 def src(node):
@@ -82,6 +99,9 @@ class Tr:
             return ('unsupported', src(e))
         if isinstance(e, ast.Constant) and isinstance(e.value, bytes):
             return ('blit', e.value)
+        if isinstance(e, ast.Attribute) and isinstance(e.value, ast.Name) and self.kinds.get(e.value.id) == 'block' \
+                and e.attr in ('tag', 'data'):
+            return ('blockTag' if e.attr == 'tag' else 'blockData', self.vars[e.value.id])
         if isinstance(e, ast.Subscript) and isinstance(e.slice, ast.Slice):
             s = e.slice
             if s.upper is None and s.step is None and isinstance(s.lower, ast.Constant) and isinstance(s.lower.value, int) \
@@ -115,10 +135,52 @@ class Tr:
             return ('div', self.ie(e.left), self.ie(e.right))
         return ('iunsupported', src(e))
 
+    def self_attr(self, e):
+        """`self.<attr>` for one of the five attributes rebuilt from the additional data -> Attr, else None"""
+        if isinstance(e, ast.Attribute) and isinstance(e.value, ast.Name) and e.value.id == 'self' and e.attr in ATTRS:
+            return ATTRS[e.attr]
+        return None
+
+    def pe(self, e):
+        """loaded plist: a local bound to one, or `plistlib.loads(<bytes>)`"""
+        if isinstance(e, ast.Name) and self.kinds.get(e.id) == 'plist':
+            return ('pvar', self.vars[e.id])
+        if isinstance(e, ast.Call) and isinstance(e.func, ast.Attribute) and e.func.attr == 'loads' \
+                and isinstance(e.func.value, ast.Name) and e.func.value.id == 'plistlib' and 'plistlib' not in self.vars \
+                and len(e.args) == 1 and not e.keywords:
+            return ('loads', self.be(e.args[0]))
+        return None
+
+    def keyed(self, e, key):
+        """`<plist>['key']` -> PE, else None"""
+        if isinstance(e, ast.Subscript) and isinstance(e.slice, ast.Constant) and e.slice.value == key:
+            return self.pe(e.value)
+        return None
+
+    def log_field(self, e):
+        """`<log event>.<field>` -> (var, Field), else None"""
+        if isinstance(e, ast.Attribute) and isinstance(e.value, ast.Name) and self.kinds.get(e.value.id) == 'logout' \
+                and e.attr in LOG_FIELDS:
+            return self.vars[e.value.id], LOG_FIELDS[e.attr]
+        return None
+
+    @staticmethod
+    def is_const(t):
+        return t[0] in ('bconst', 'blit')
+
     def cond(self, e, pre):
         """condition; reads found inside are hoisted into `pre` (list of statements) when `pre` is not None"""
         if isinstance(e, ast.Constant) and (e.value is True or e.value == 1):
             return ('tt',)
+        if isinstance(e, ast.BoolOp) and isinstance(e.op, ast.And) and len(e.values) >= 2:
+            cs = [self.cond(v, None) for v in e.values]          # no hoisting out of a short-circuit operand
+            out = cs[-1]
+            for c in reversed(cs[:-1]):
+                out = ('and', c, out)
+            return out
+        lf = self.log_field(e)
+        if lf is not None:
+            return ('fieldTruthy', lf[0], lf[1])
         if isinstance(e, ast.UnaryOp) and isinstance(e.op, ast.Not):
             inner = e.operand
             if isinstance(inner, ast.Compare) and len(inner.ops) == 1:
@@ -132,8 +194,11 @@ class Tr:
         if isinstance(e, ast.Compare) and len(e.ops) == 1 and isinstance(e.ops[0], (ast.Eq, ast.NotEq)):
             a = self.operand(e.left, pre)
             b = self.operand(e.comparators[0], pre)
+            if self.is_const(a) and not self.is_const(b):
+                a, b = b, a                                      # the constant second (it has no effect to order)
             return ('ne' if isinstance(e.ops[0], ast.NotEq) else 'eq', a, b)
-        if isinstance(e, (ast.Name, ast.Call, ast.Subscript, ast.BinOp)):
+        if isinstance(e, (ast.Name, ast.Call, ast.Subscript, ast.BinOp)) or \
+                (isinstance(e, ast.Attribute) and self.be(e)[0] != 'unsupported'):
             return ('nonEmpty', self.operand(e, pre))
         return ('cunsupported', src(e))
 
@@ -152,7 +217,60 @@ class Tr:
         out = []
         for s in stmts:
             out += self.stmt(s)
+        # a run of attribute resets of pairwise different attributes: canonical order (they commute)
+        i = 0
+        while i < len(out):
+            j = i
+            while j < len(out) and out[j][0] == 'setAttrInit':
+                j += 1
+            run = out[i:j]
+            if len(run) > 1 and len({r[1] for r in run}) == len(run):
+                out[i:j] = sorted(run, key=lambda r: ATTR_ORDER.index(r[1]))
+            i = max(j, i + 1)
         return out
+
+    def init_val(self, v):
+        """`''` | `{}` | `{'Binaries': []}` -> InitVal, else None"""
+        if isinstance(v, ast.Constant) and v.value == '' and isinstance(v.value, str):
+            return '.emptyStr'
+        if isinstance(v, ast.Dict) and not v.keys:
+            return '.emptyDict'
+        if isinstance(v, ast.Dict) and len(v.keys) == 1 and isinstance(v.keys[0], ast.Constant) \
+                and v.keys[0].value == 'Binaries' and isinstance(v.values[0], ast.List) and not v.values[0].elts:
+            return '.binariesDict'
+        return None
+
+    def decoded(self, e):
+        """`<bytes>.decode()` -> BE, else None"""
+        if isinstance(e, ast.Call) and isinstance(e.func, ast.Attribute) and e.func.attr == 'decode' and not e.keywords \
+                and (not e.args or (len(e.args) == 1 and isinstance(e.args[0], ast.Constant)
+                                    and e.args[0].value in ('utf-8', 'utf8'))):
+            b = self.be(e.func.value)
+            if b[0] != 'unsupported':
+                return b
+        return None
+
+    def is_seek_cur(self, e):
+        return (isinstance(e, ast.Constant) and e.value == 1 and not isinstance(e.value, bool)) or \
+            (isinstance(e, ast.Attribute) and e.attr == 'SEEK_CUR' and isinstance(e.value, ast.Name)
+             and e.value.id in ('io', 'os') and e.value.id not in self.vars)
+
+    def inverted_index(self, v):
+        """`{b: a for a, b in <plist>['StringIndex'].items()}` -> PE, else None"""
+        if not (isinstance(v, ast.DictComp) and len(v.generators) == 1):
+            return None
+        g = v.generators[0]
+        if g.ifs or g.is_async or not (isinstance(g.target, ast.Tuple) and len(g.target.elts) == 2
+                                       and all(isinstance(x, ast.Name) for x in g.target.elts)):
+            return None
+        a, b = g.target.elts[0].id, g.target.elts[1].id
+        if a == b or not (isinstance(v.key, ast.Name) and v.key.id == b and isinstance(v.value, ast.Name) and v.value.id == a):
+            return None
+        it = g.iter
+        if not (isinstance(it, ast.Call) and isinstance(it.func, ast.Attribute) and it.func.attr == 'items' and not it.args
+                and not it.keywords):
+            return None
+        return self.keyed(it.func.value, 'StringIndex')
 
     def prim_of(self, call):
         """`<construct>.parse_stream(reader)` -> primitive name"""
@@ -167,6 +285,8 @@ class Tr:
             return '.int64ul'
         if isinstance(c, ast.Name) and c.id == 'kd_v3_threadmap':
             return '.threadmapV3struct'
+        if isinstance(c, ast.Name) and c.id == 'kd_v3_additional_data':
+            return '.additionalData'
         if isinstance(c, ast.Call) and isinstance(c.func, ast.Name) and c.func.id == 'Aligned' and len(c.args) == 2 \
                 and isinstance(c.args[0], ast.Constant) and c.args[0].value == 8 and isinstance(c.args[1], ast.Name) \
                 and c.args[1].id == 'kd_header_v3' and not c.keywords:
@@ -195,6 +315,31 @@ class Tr:
             if isinstance(v, ast.Call) and isinstance(v.func, ast.Name) and v.func.id == 'seek_until' and len(v.args) == 2 \
                     and isinstance(v.args[0], ast.Name) and v.args[0].id == self.reader and not v.keywords:
                 return [('callSeek', self.be(v.args[1]))]
+            if isinstance(v, ast.Call) and isinstance(v.func, ast.Attribute) and v.func.attr == 'seek' \
+                    and isinstance(v.func.value, ast.Name) and v.func.value.id == self.reader and len(v.args) == 2 \
+                    and not v.keywords and self.is_seek_cur(v.args[1]):
+                k = v.args[0]
+                if isinstance(k, ast.UnaryOp) and isinstance(k.op, ast.USub) and isinstance(k.operand, ast.Constant) \
+                        and isinstance(k.operand.value, int) and not isinstance(k.operand.value, bool) and k.operand.value >= 0:
+                    return [('seekRel', k.operand.value)]
+            if isinstance(v, ast.Yield) and isinstance(v.value, ast.Name) and self.kinds.get(v.value.id) == 'logout':
+                return [('yieldVar', self.vars[v.value.id])]
+            if isinstance(v, ast.Call) and isinstance(v.func, ast.Attribute) and len(v.args) == 1 and not v.keywords:
+                tgt, meth, arg = v.func.value, v.func.attr, v.args[0]
+                a = self.self_attr(tgt)
+                if meth == 'update' and a is not None:
+                    p = self.pe(arg)
+                    if p is not None:
+                        return [('attrUpdate', a, p)]
+                if meth == 'extend' and isinstance(tgt, ast.Subscript) and isinstance(tgt.slice, ast.Constant) \
+                        and tgt.slice.value == 'Binaries' and self.self_attr(tgt.value) is not None:
+                    p = self.keyed(arg, 'Binaries')
+                    if p is not None:
+                        return [('binExtend', self.self_attr(tgt.value), p)]
+                if meth == 'extend' and isinstance(tgt, ast.Name) and self.kinds.get(tgt.id) == 'events':
+                    p = self.keyed(arg, 'Events')
+                    if p is not None:
+                        return [('eventsExtend', self.vars[tgt.id], p)]
             if isinstance(v, ast.Call) and isinstance(v.func, ast.Attribute) and v.func.attr == 'set_thread_map' \
                     and isinstance(v.func.value, ast.Name) and v.func.value.id == 'self' and len(v.args) == 1 \
                     and not v.keywords:
@@ -210,11 +355,47 @@ class Tr:
             if isinstance(t, ast.Attribute) and isinstance(t.value, ast.Name) and t.value.id == 'self' \
                     and t.attr == 'v3_header' and self.prim_of(v) == '.headerV3':
                 return [('prim', '.headerV3', 0)]
+            a = self.self_attr(t)
+            if a is not None:
+                iv = self.init_val(v)
+                if iv is not None:
+                    return [('setAttrInit', a, iv)]
+                p = self.pe(v)
+                if p is not None:
+                    return [('setAttrP', a, p)]
+                if isinstance(v, ast.BinOp) and isinstance(v.op, ast.Add) and self.self_attr(v.left) == a:
+                    d = self.decoded(v.right)
+                    if d is not None:
+                        return [('strAppendDecoded', a, d)]
+            if isinstance(t, ast.Subscript) and isinstance(t.value, ast.Attribute) and isinstance(t.value.value, ast.Name) \
+                    and t.value.value.id == 'self' and t.value.attr in DICTS:
+                k, w = self.log_field(t.slice), self.log_field(v)
+                if k is not None and w is not None and k[0] == w[0]:
+                    return [('storeLog', DICTS[t.value.attr], k[1], w[1], k[0])]
             if isinstance(t, ast.Name):
                 if self.is_reader_read(v):
                     n = self.ie(v.args[0])
                     return [('read', self.bind(t.id, 'bytes'), n)]
+                if isinstance(v, ast.List) and not v.elts:
+                    return [('newList', self.bind(t.id, 'events'))]
+                if isinstance(v, ast.Dict) and not v.keys:
+                    return [('newDict', self.bind(t.id, 'strings'))]
+                pl = self.pe(v)
+                if pl is not None and pl[0] == 'loads':
+                    return [('assignP', self.bind(t.id, 'plist'), pl)]
+                inv = self.inverted_index(v)
+                if inv is not None:
+                    return [('assignInvIndex', self.bind(t.id, 'strings'), inv)]
+                if isinstance(v, ast.Call) and isinstance(v.func, ast.Attribute) and v.func.attr == 'from_raw_log_event' \
+                        and isinstance(v.func.value, ast.Name) and v.func.value.id == 'OsLogEvent' \
+                        and 'OsLogEvent' not in self.vars and len(v.args) == 2 and not v.keywords \
+                        and all(isinstance(x, ast.Name) for x in v.args) and self.kinds.get(v.args[0].id) == 'rawlog' \
+                        and self.kinds.get(v.args[1].id) == 'strings':
+                    ev, st = self.vars[v.args[0].id], self.vars[v.args[1].id]
+                    return [('fromRawLog', self.bind(t.id, 'logout'), ev, st)]
                 p = self.prim_of(v)
+                if p == '.additionalData':
+                    return [('prim', p, self.bind(t.id, 'blocks'))]
                 if p == '.headerV2':
                     return [('prim', p, self.bind(t.id, 'hdr2'))]
                 if p == '.int64ul':
@@ -231,7 +412,23 @@ class Tr:
         if isinstance(s, ast.AugAssign) and isinstance(s.target, ast.Name) and isinstance(s.op, ast.Add) \
                 and self.kinds.get(s.target.id) == 'bytes':
             return [('assign', self.vars[s.target.id], ('cat', ('var', self.vars[s.target.id]), self.be(s.value)))]
+        if isinstance(s, ast.AugAssign) and isinstance(s.op, ast.Add) and self.self_attr(s.target) is not None:
+            d = self.decoded(s.value)
+            if d is not None:
+                return [('strAppendDecoded', self.self_attr(s.target), d)]
+            return [('unsupported', src(s))]
+        if isinstance(s, ast.AugAssign) and isinstance(s.op, ast.Add) and isinstance(s.target, ast.Name) \
+                and self.kinds.get(s.target.id) == 'events':
+            p = self.keyed(s.value, 'Events')
+            if p is not None:
+                return [('eventsExtend', self.vars[s.target.id], p)]
+            return [('unsupported', src(s))]
         if isinstance(s, ast.If):
+            neg = isinstance(s.test, ast.UnaryOp) and isinstance(s.test.op, ast.Not)
+            a = self.self_attr(s.test.operand if neg else s.test)
+            if a is not None:
+                t, e = self.seq(self.block(s.body)), self.seq(self.block(s.orelse))
+                return [('iteAttrEmpty', a, t, e) if neg else ('iteAttrEmpty', a, e, t)]
             pre = []
             c = self.cond(s.test, pre)
             return pre + [('ite', c, self.seq(self.block(s.body)), self.seq(self.block(s.orelse)))]
@@ -245,6 +442,13 @@ class Tr:
             if s.target.id not in used:
                 n = self.ie(s.iter.args[0])
                 return [('forRange', n, self.seq(self.block(s.body)))]
+        if isinstance(s, ast.For) and not s.orelse and isinstance(s.target, ast.Name) and isinstance(s.iter, ast.Name) \
+                and self.kinds.get(s.iter.id) in ('blocks', 'events') and s.target.id != s.iter.id:
+            used = {n.id for b in s.body for n in ast.walk(b) if isinstance(n, ast.Name)}
+            if s.iter.id not in used:                              # the body leaves the list it goes through alone
+                c = self.vars[s.iter.id]
+                x = self.bind(s.target.id, 'block' if self.kinds[s.iter.id] == 'blocks' else 'rawlog')
+                return [('forIn', x, c, self.seq(self.block(s.body)))]
         return [('unsupported', src(s))]
 
     @staticmethod
@@ -255,13 +459,8 @@ class Tr:
             return stmts[0]
         return ('seq', stmts[0], Tr.seq(stmts[1:]))
 
-    def function(self, fn, upto_first_while=False):
+    def function(self, fn):
         body = list(fn.body)
-        if upto_first_while:
-            idx = next((i for i, s in enumerate(body) if isinstance(s, ast.While)), None)
-            if idx is None:
-                return ('unsupported', 'no top-level while loop in ' + fn.name)
-            body = body[:idx + 1]
         # locals bound exactly once, at top level or anywhere, to a reader-free integer expression
         counts = {}
         for n in ast.walk(fn):
@@ -311,6 +510,12 @@ def lean(t, lean_str):
         return '(.dropFrom %s %d)' % (L(t[1]), t[2])
     if k == 'cat':
         return '(.cat %s %s)' % (L(t[1]), L(t[2]))
+    if k in ('blockTag', 'blockData'):
+        return '(.%s %d)' % (k, t[1])
+    if k == 'pvar':
+        return '(.var %d)' % t[1]
+    if k == 'loads':
+        return '(.loads %s)' % L(t[1])
     if k == 'unsupported':
         return '(.unsupported %s)' % lean_str(t[1])
     if k == 'ilit':
@@ -331,6 +536,10 @@ def lean(t, lean_str):
         return '(.%s %s %s)' % (k, L(t[1]), L(t[2]))
     if k in ('isEmpty', 'nonEmpty'):
         return '(.%s %s)' % (k, L(t[1]))
+    if k == 'and':
+        return '(.and %s %s)' % (L(t[1]), L(t[2]))
+    if k == 'fieldTruthy':
+        return '(.fieldTruthy %d %s)' % (t[1], t[2])
     if k == 'cunsupported':
         return '(.unsupported %s)' % lean_str(t[1])
     if k == 'skip':
@@ -361,6 +570,24 @@ def lean(t, lean_str):
         return '(.prim %s %d)' % (t[1], t[2])
     if k == 'setThreadMap':
         return '(.setThreadMap %d)' % t[1]
+    if k == 'seekRel':
+        return '(.seekRel %d)' % t[1]
+    if k == 'setAttrInit':
+        return '(.setAttrInit %s %s)' % (t[1], t[2])
+    if k in ('newList', 'newDict', 'yieldVar'):
+        return '(.%s %d)' % (k, t[1])
+    if k == 'forIn':
+        return '(.forIn %d %d %s)' % (t[1], t[2], L(t[3]))
+    if k in ('assignP', 'eventsExtend', 'assignInvIndex'):
+        return '(.%s %d %s)' % (k, t[1], L(t[2]))
+    if k == 'iteAttrEmpty':
+        return '(.iteAttrEmpty %s %s %s)' % (t[1], L(t[2]), L(t[3]))
+    if k in ('attrUpdate', 'binExtend', 'strAppendDecoded', 'setAttrP'):
+        return '(.%s %s %s)' % (k, t[1], L(t[2]))
+    if k == 'fromRawLog':
+        return '(.fromRawLog %d %d %d)' % (t[1], t[2], t[3])
+    if k == 'storeLog':
+        return '(.storeLog %s %s %s %d)' % (t[1], t[2], t[3], t[4])
     raise ValueError(k)
 
 
@@ -498,28 +725,32 @@ def translate(repo):
         out['seekUntil'] = (1, tr.function(seek))
     cls = next((n for n in tree.body if isinstance(n, ast.ClassDef) and n.name == 'KdBufParser'), None)
     fns = {n.name: n for n in cls.body if isinstance(n, ast.FunctionDef)} if cls else {}
-    for py, field, upto in (('parse_v2', 'parseV2', False), ('parse_v3', 'parseV3', True)):
+    for py, field in (('parse_v2', 'parseV2'), ('parse_v3', 'parseV3')):
         fn = fns.get(py)
         if fn is None or [a.arg for a in fn.args.args] != ['self', 'reader']:
             out[field] = ('unsupported', py + '(self, reader) not found')
         else:
-            out[field] = Tr(consts).function(fn, upto_first_while=upto)
+            out[field] = Tr(consts).function(fn)
     stm = fns.get('set_thread_map')
     out['setThreadMap'] = translate_set_thread_map(stm, notes) if stm else [('unsupported', 'set_thread_map not found')]
     out['parse'] = translate_dispatch(cls, consts, notes) if cls else (('iunsupported', 'KdBufParser'), [])
     # the callee names must mean the module-level function / the methods translated here
-    for name in ('seek_until', 'from_kd_buf'):
+    for name in ('seek_until', 'from_kd_buf', 'plistlib', 'OsLogEvent'):
         stores = [n for n in ast.walk(tree) if isinstance(n, ast.Name) and n.id == name and isinstance(n.ctx, ast.Store)]
         if stores:
             notes.append('%s is rebound at line %d' % (name, stores[0].lineno))
+    stores = [n for n in ast.walk(tree) if isinstance(n, ast.Name) and n.id == 'kd_v3_additional_data'
+              and isinstance(n.ctx, ast.Store)]
+    if len(stores) > 1:
+        notes.append('kd_v3_additional_data is rebound at line %d' % stores[1].lineno)
     return out, notes
 
 
 def generate(repo, write_if_changed, lean_str):
     out, notes = translate(repo)
     L = ['import KdVerif.Model.PyIRRd', 'namespace KdVerif.Gen.PyIRRd', 'open KdVerif.PyIRRd', '',
-         '/-! The reader code of pykdebugparser/kd_buf_parser.py (`seek_until`, `set_thread_map`, `parse_v2`, `parse_v3` up to',
-         '    the end of its chunk loop, `parse` + `self.versions`), translated from the source text into the IR of',
+         '/-! The reader code of pykdebugparser/kd_buf_parser.py (`seek_until`, `set_thread_map`, `parse_v2`, the whole of',
+         '    `parse_v3`, `parse` + `self.versions`), translated from the source text into the IR of',
          '    `Model/PyIRRd` (tools/gen_pyir_rd.py). -/', '']
     params, body = out['seekUntil']
     L.append('def seekUntil : Proc := { params := %d, body :=\n  %s }\n' % (params, lean(body, lean_str)))
